@@ -99,6 +99,7 @@ func c05Case(c *core.Ctx, rng *rand.Rand, dir string, idx int, a *apiTrack, st *
 	}
 	under0 := atomic.LoadInt64(&st.underLock)
 	sends0 := atomic.LoadInt64(&st.sends)
+	errSends0 := atomic.LoadInt64(&st.errSends)
 	// consumer
 	stopCons := make(chan struct{})
 	consDone := make(chan struct{})
@@ -352,20 +353,16 @@ func c05Case(c *core.Ctx, rng *rand.Rand, dir string, idx int, a *apiTrack, st *
 		c.Count("pending_error_histories", 1)
 		c.Count("overflow_histories", 1)
 		mq := maxQueued()
-		for k := 0; k < mq+500; k++ {
+		for k := 0; k < mq+cap(w.Events)+2600; k++ { // the reader takes a buffer-full and a read-full out of the kernel queue meanwhile
 			p := filepath.Join(d, fmt.Sprint("o", k))
 			os.WriteFile(p, nil, 0o644)
 		}
 		close(gate)
-		// Let the reader get as far as the overflow record before the control calls start. Logical
-		// condition: the reader has begun one more send than values were consumed after the consumer
-		// took everything that was queued (that extra send is the overflow error: nothing else is
-		// queued), or an error was consumed, or the probe already saw a send under the lock.
-		// The 15 s cap only bounds a broken run.
+		// Let the reader get as far as the overflow record before the control calls start. Logical condition:
+		// a send that comes from sendError has begun (recognised on the call stack by the Send hook), or an
+		// error was consumed, or the probe already saw a send under the lock. The cap only bounds a broken run.
 		for i := 0; i < 150000; i++ {
-			consumed := atomic.LoadInt64(&nev) + atomic.LoadInt64(&nerr)
-			if atomic.LoadInt64(&nerr) > 0 || atomic.LoadInt64(&st.underLock) > under0 ||
-				(atomic.LoadInt64(&nev) >= int64(mq) && atomic.LoadInt64(&st.sends)-sends0 > consumed) {
+			if atomic.LoadInt64(&nerr) > 0 || atomic.LoadInt64(&st.underLock) > under0 || atomic.LoadInt64(&st.errSends) > errSends0 {
 				break
 			}
 			time.Sleep(100 * time.Microsecond)
